@@ -209,7 +209,8 @@ fn part_a(r: &Report) {
         };
         r.count("programs", 1);
         let ovs = if thorough {
-            p.owners.clone().unwrap_or_else(|| mpcx::owner_vectors(n))
+            // depth-1 and curated programs: all owner vectors; deeper recipes (class "A+B..."): the covering set
+            p.owners.clone().unwrap_or_else(|| if p.class.contains('+') { c01::covering_owners(n) } else { mpcx::owner_vectors(n) })
         } else {
             p.owners.clone().map(|o| o.into_iter().take(4).collect()).unwrap_or_else(|| {
                 let c = c01::covering_owners(n);
